@@ -531,11 +531,13 @@ def main(tier: str, replay: str | None = None):
     rnd = random.Random(SEED)
     run.exhaustive = True
     order = sorted(params, key=lambda f: ("stubs", "top", "sub", "ns").index(f))
-    with ThreadPoolExecutor(max_workers=2 * len(params)) as pool:
+    # at most len(params) + 1 concurrent JVMs (tlc.run takes one of the machine-wide TLC slots per run): the check runs
+    # in parallel, the short defect runs (they stop at the first violation) one after the other on a single thread
+    with ThreadPoolExecutor(max_workers=len(params)) as pool, ThreadPoolExecutor(max_workers=1) as dpool:
         for fam in order:
             consts = params[fam]
             jobs["check", fam] = pool.submit(tlc.run, "Finder", "Finder_check.cfg", workers=nworkers, constants=dict(consts, FAMILY=fam), timeout=7000, heap="2g")
-            jobs["defect", fam] = pool.submit(tlc.run, "Finder", "Finder_defect.cfg", workers=1, constants=dict(consts, FAMILY=fam), timeout=7000, heap="1g", dump_trace=True)
+            jobs["defect", fam] = dpool.submit(tlc.run, "Finder", "Finder_defect.cfg", workers=1, constants=dict(consts, FAMILY=fam), timeout=7000, heap="1g", dump_trace=True)
         # families are replayed one after the other, as soon as their TLC run is over (smallest first)
         for fam in order:
             res = jobs["check", fam].result()
